@@ -30,5 +30,11 @@ pub fn by_id(id: &str) -> Option<Box<dyn Prop>> {
     if id == "C03R" {
         return Some(Box::new(c03::C03R));
     }
+    if id == "C09R" {
+        return Some(Box::new(c09::C09R));
+    }
+    if id == "C04R" {
+        return Some(Box::new(c04::C04R));
+    }
     all().into_iter().find(|p| p.id() == id)
 }
